@@ -152,6 +152,9 @@ class C08(CompSpec):
                 "filelock": rng.choice(["", "", "legacy"]),
                 "hashseed": rng.choice([0, 1]),
             }
+            if i % 5 == 2:
+                # an output directory whose name contains characters that mean something to glob / fnmatch / the shell
+                scen["outname"] = rng.choice(["out[1]", "run[ab]/out", "o*ut", "out?", "sweep[2]/output"])
             if i % 5 == 4:
                 # slow-holder slice: the k-th critical point reached inside a results-lock hold stalls for longer than the lock timeout
                 scen["slow_holder"] = rng.randint(1, 14)
@@ -279,6 +282,10 @@ class C10(CompSpec):
                     scen["cancel"] = rng.choice([0.01, 0.05])
                     scen["cancel_host"] = rng.choice(["login", "login2"])
                 t["args"]["cls"] = "sim.resub:ResubSim"
+            elif i % 4 == 2:
+                # the same `jade submit-jobs` started twice at once for one new output directory (srun -n 2, a wrapper script
+                # run twice): exactly one of them may create the submission, the other must leave without touching it
+                scen["double_submit"] = True
             out.append(t)
         return out
 
